@@ -180,10 +180,10 @@ class Builder:
 
     # ---- binds ------------------------------------------------------
     def _name(self, litexec=False):
-        # (escaped name x literal_execute) raises KeyError in the unchanged tree (reported defect):
-        # keep that combination rare so that it does not eat the exploration
+        # (escaped name x literal_execute) raised KeyError before fix 7b1a1df; kept at a normal rate now
+
         self.nname += 1
-        if self.r.random() < (0.06 if litexec else 0.35):
+        if self.r.random() < (0.3 if litexec else 0.35):
             self.case.features.add("escaped_name")
             return self.r.choice(ESC_NAMES) % self.nname
         return "p%d" % self.nname
